@@ -466,11 +466,17 @@ def check_C05(tr):
 # ------------------------------------------------------------------------------------- C07
 def check_C07(tr):
     out = []
+    # ghost, from the history alone: the sides that released a nameplate which stayed live (same row) ever since
+    released_live = {}
     for st in tr.steps:
         if st.pre is None or st.post is None:
             continue
         op = st.op
         before, after = st.pre.claims(), st.post.claims()
+        for k in list(released_live):
+            r0, r1 = st.pre.np_by_key().get(k), st.post.np_by_key().get(k)
+            if r1 is None or (r0 is not None and r0[0] != r1[0]):
+                del released_live[k]           # the nameplate is gone (or is a new incarnation)
         added, removed = after - before, before - after
         actor = None
         if op["op"] == "recv":
@@ -529,6 +535,22 @@ def check_C07(tr):
                 # by the history this release is in order (it follows this connection's claim, or names a
                 # nameplate), yet it was refused
                 out.append(Finding("C07", "release is always answered released", st.i, {"error": e, "events": st.raw_events}))
+        if op["op"] == "recv" and op["msg"].get("type") == "release" and actor and not st.crashed() \
+                and [x["type"] for x in st.frames(op["c"])] == ["ack", "released"]:
+            n = op["msg"].get("nameplate")
+            if n is None:
+                n = getattr(st, "flags_pre", {}).get(op["c"], {}).get("np")
+            if n is not None and (actor[0], n, actor[1]) in before and (actor[0], n) in st.post.np_by_key():
+                released_live.setdefault((actor[0], n), set()).add(actor[1])
+        if op["op"] == "recv" and op["msg"].get("type") == "claim" and actor and "nameplate" in op["msg"] \
+                and expected_rejection(st, op) is None and not st.crashed() \
+                and actor[1] in released_live.get((actor[0], op["msg"]["nameplate"]), ()) \
+                and (actor[0], op["msg"]["nameplate"]) in st.pre.np_by_key():
+            # by the history this side released the nameplate and the nameplate has been live ever since
+            if [x["type"] for x in st.frames(op["c"])] != ["ack", "error"] or st.err(op["c"]) != "reclaimed":
+                out.append(Finding("C07", "a side that released a live nameplate cannot claim it again", st.i,
+                                   {"nameplate": (actor[0], op["msg"]["nameplate"]), "side": actor[1], "events": st.raw_events,
+                                    "by": "history"}))
         if op["op"] == "recv" and op["msg"].get("type") == "claim" and actor and st.err(op["c"]) == "reclaimed":
             if st.pre.chan_rows() != st.post.chan_rows():
                 out.append(Finding("C07", "reclaimed changes nothing", st.i, {}))
